@@ -335,7 +335,7 @@ def rule_unflatten(ctx):
     for p in ret_paths(ev):
         for e in p.calls('unflatten'):
             recv = T.call_receiver(e.a)
-            if any(x[0] == 'carried' for x in T.strip_phi(recv)) and SELF in T.strip_phi(recv):
+            if any(x[0] == 'carried' for x in T.value_alts(recv)) and SELF in T.value_alts(recv):
                 okr = True
             else:
                 ctx.violated('R3', fi, e.node, 'unflatten(None) must expand the grouped axes one after the other on the accumulated result', node=e.node)
@@ -428,7 +428,7 @@ def rule_reshape(ctx):
             continue
         owner = tgt[1][1] if tgt[1][0] == 'attr' else None
         fresh = False
-        for alt in T.strip_phi(owner) if owner else []:
+        for alt in T.value_alts(owner) if owner else []:
             while alt[0] == 'mut':
                 alt = alt[1]
             if alt[0] == 'carried':
@@ -448,7 +448,7 @@ def rule_reshape(ctx):
         first = renames[0]
         owner = first.a[1][1]
         good = False
-        for alt in T.strip_phi(owner):
+        for alt in T.value_alts(owner):
             if alt[0] == 'call' and T.call_name(alt) == '_constructor' and len(alt[2]) == 2 and alt[2][1][0] == 'comp' \
                     and alt[2][1][2][0] == 'call' and T.call_name(alt[2][1][2]) == 'copy':
                 good = True
